@@ -605,6 +605,21 @@ def main(ctx):
         "exact comparison uses integer-valued complex128 data with all partial sums below 2^50; floating-point rounding "
         "is outside the theorems",
     ]
+    # ---------------------------------------------------------------- (R) one backend object, several calls
+    import random as _random
+    n_reuse = 0
+    for name in ("standard", "efficient", "ones"):
+        for n in ([2, 3, 5, 7, 8, 9] if not ctx.thorough else [1, 2, 3, 4, 5, 6, 7, 8, 9, 10, 11]):
+            for rep in range(2 if not ctx.thorough else 4):
+                sd = ctx.seed * 100003 + 1000 * n + 10 * rep + len(name)
+                mn, op = ((3, 4) if rep % 2 == 0 else (1, 2))
+                bad, _case = L.reuse_sequence(_random.Random(sd), name, n, mn, op)
+                ctx.count(); n_reuse += 1
+                if bad:
+                    fail({"backend": CLASS[name], "kind": "reused-backend-object"}, n,
+                         {"mode": "reuse", "backend": name, "n": n, "min": mn, "opt": op, "seed": sd, "failure": bad},
+                         f"{CLASS[name]}(n={n}) used for several statevector() calls: {bad}")
+    cov["reuse_sequences"] = n_reuse
     # ---------------------------------------------------------------- decide
     for key in sorted(fails):
         rank, sig, replay, what = fails[key]
@@ -663,6 +678,10 @@ def replay(ctx, path):
         bad = classify("binary", r, want)
         print("implementation:", {k: (v if k != "ok" else v[:16]) for k, v in r.items()}); print("oracle:", want[:16])
         print("verdict:", bad[1] if bad else "holds"); return 1 if bad else 0
+    if mode == "reuse":
+        import random
+        bad, _ = L.reuse_sequence(random.Random(rp["seed"]), rp["backend"], rp["n"], rp["min"], rp["opt"])
+        print(f"{CLASS[rp['backend']]}(n={rp['n']}) serving several calls:", bad or "holds"); return 1 if bad else 0
     if mode == "chunks":
         r = L.real_chunk_list(rp["len"], rp["min"], rp["opt"])
         cs = r.get("ok")
